@@ -332,6 +332,11 @@ fn main() {
         for p in ["{foo-[0-9,a]*,bar-1}", "{p[,]q,r}", "{[a,b]}", "p-{[1,2]*,x}", "{a[,b}", "{a],b}", "{mysql,mariadb}-[0-9]*", "{py27,py}-[0-9]*"] {
             pats.push(p.to_string());
         }
+        // an expansion is "a pattern in its own right": a wildcard at its start matches a leading
+        // '.' (and one after a '/') exactly as it does in the same glob written without braces
+        for p in ["{*,lib*}-[0-9]*", "{?,a}x", "{a,b}/*", "{[.a],b}x", "{*,x}", "{.*,x}-1", "{?*,x}-1", "{a/?,b}b", "{[!a],a}profile-1.0"] {
+            pats.push(p.to_string());
+        }
         // fixed text on both sides of a group whose alternatives carry the operator
         for p in ["pkg{>=1,<0}.5", "p{>=1,<1}.0", "p{>,<}1", "p{>=,<}1.0", "py-foo{>=1,<0}.5", "p{-1,>=2}.0", "{p,q}{>=1,<1}.5"] {
             pats.push(p.to_string());
@@ -375,7 +380,7 @@ fn main() {
             "foo-1", "foo-,", "a]*", "bar-1", "p,q", "p[q", "p[", "]q", "r", "a", "b]", "[a", "p-1", "p-[1", "2]*", "p-2]*", "p-x", "mysql-8.0-rc1", "mariadb-1-", "mysql-8.0", "py-1-2", "py27-3.0-1",
             "pkg-2.0", "pkg-0.2", "pkg-1", "p-2.0", "p-1.0", "p-0.5", "p-1", "py-foo-1.0", "py-foo-2.5", "py-foo-2.4.3", "py-foo-6", "py27-foo-3", "py27-foo-6", "py30-foo-1", "o3-4", "o3-1",
             "py-xyz-foo-1", "py-opt3-foo-1", "py-opt16-foo-1", "py-xyz-foo-2", "py-x-foo-1", "py-foo-1", "py-foo-2", "py-foo-0", "py-fooopt3", "opt3", "py-yaz-foo-1",
-            "pab-1", "paaaa-1", "paaaaaaaaaaaa-1", "paaaaaaaaaaaaaaaaaa-1", "paaaaaaaaaaaaaaaaaaaa-1", "pabababab-1", "paaaaaaaaaa-1", "pb-1", "pa-1", "pbbbba-1", "pc-1", "pac-1", "pacccc-1"].iter().map(|s| s.to_string()).collect();
+            ".profile-1.0", ".x", "a/.b", ".", ".-1", "..x", "lib.-1", ".x-1", "a/.", "/.x", "pab-1", "paaaa-1", "paaaaaaaaaaaa-1", "paaaaaaaaaaaaaaaaaa-1", "paaaaaaaaaaaaaaaaaaaa-1", "pabababab-1", "paaaaaaaaaa-1", "pb-1", "pa-1", "pbbbba-1", "pc-1", "pac-1", "pacccc-1"].iter().map(|s| s.to_string()).collect();
         let mut names = names;
         for (a, b, _) in mc_core::chars::HASH_COLLISIONS {
             names.push(format!("{}-1", a));
